@@ -44,6 +44,15 @@ use yash_env::system::{
 use yash_semantics::trap::run_exit_trap;
 use yash_semantics::{Runtime, interactive_read_eval_loop, read_eval_loop};
 
+/// Returns the command-line arguments of the process.
+///
+/// `std::env::args` panics on an argument that is not valid Unicode. The shell
+/// cannot represent such an argument exactly, so any invalid sequence in it is
+/// replaced with U+FFFD.
+fn args() -> impl Iterator<Item = String> {
+    std::env::args_os().map(|arg| arg.to_string_lossy().into_owned())
+}
+
 async fn print_version<S>(env: &mut Env<S>)
 where
     S: Isatty + WriteAll,
@@ -73,12 +82,12 @@ where
         + 'static,
 {
     // Parse the command-line arguments
-    let run = match self::startup::args::parse(std::env::args()) {
+    let run = match self::startup::args::parse(args()) {
         Ok(Parse::Help) => todo!("print help"),
         Ok(Parse::Version) => return print_version(env).await,
         Ok(Parse::Run(run)) => run,
         Err(e) => {
-            let arg0 = std::env::args().next().unwrap_or_else(|| "yash".to_owned());
+            let arg0 = args().next().unwrap_or_else(|| "yash".to_owned());
             env.system.print_error(&format!("{arg0}: {e}\n")).await;
             env.exit_status = ExitStatus::ERROR;
             return;
@@ -113,7 +122,7 @@ where
     let lexer = match prepare_input(&ref_env, &work.source).await {
         Ok(lexer) => lexer,
         Err(e) => {
-            let arg0 = std::env::args().next().unwrap_or_else(|| "yash".to_owned());
+            let arg0 = args().next().unwrap_or_else(|| "yash".to_owned());
             let message = format!("{arg0}: {e}\n");
             // The borrow checker of Rust 1.79.0 is not smart enough to reason
             // about the lifetime of `e` here, so we re-borrow from `ref_env`
